@@ -71,6 +71,7 @@ func c18Inputs() []c18Input {
 		{"data-error", seedProfilePlain, "not json", true, false},
 		{"data-jsonld-error", seedProfilePlain, `{"@id":1}`, true, false},
 		{"empty-data", seedProfilePlain, `{}`, true, true},
+		{"percent", strings.Replace(strings.Replace(seedProfilePlain, "message: p1 is required", "message: \"100% of %d nodes need p1 %s\"", 1), "profile: seed plain", "profile: 50%v plain", 1), strings.ReplaceAll(one.FlatJSONLD(), "http://ex.org/n", "file:///my%20api.raml#n"), true, true},
 	}
 }
 
